@@ -2,15 +2,21 @@
    cases:   RT  <S|M|J> x<tid16> x<sid8> <flags> <remote> x<tracestate header>
             EXT B <b3> <X-B3-TraceId> <X-B3-SpanId> <X-B3-Sampled>      (x<bytes> or NONE = header absent)
             EXT J <uber-trace-id>
+            RTD <S|M|J|C> <ctx: 5 tokens as for RT> (SPAN <ctx: 5 tokens> | NOSPAN) <nkeys 0..9>
+                inject ctx into an empty carrier, extract into a destination Context holding nkeys unrelated
+                values and (SPAN) a span; C = CompositePropagator{B3 single, B3 multi, Jaeger}
    observations:  OK x<tid> x<sid> <flags> <remote> x<tracestate>  |  INVALID <caller's context returned unchanged>
-                  followed, for RT, by   ; H x<key> x<value> ...   (the carrier after Inject, in key order)  or  ; NOHDR *)
+                  followed, for RT/RTD, by   ; H x<key> x<value> ...   (the carrier after Inject, in key order)  or  ; NOHDR
+                  preceded, for RTD, by   K <number of unrelated values still readable in the returned context>;
+                  for RTD, INVALID means: the returned context's span is the destination's own (or still absent) *)
 From V Require Export C16.Spec.
 Local Open Scope Z_scope.
 
 Inductive case :=
 | CRt (k : prop_kind) (c : span_ctx)
 | CExtB (b3 xt xs xf : bytes)
-| CExtJ (h : bytes).
+| CExtJ (h : bytes)
+| CRtD (x : xkind) (c : span_ctx) (d : option span_ctx) (n : nat).
 
 Definition opt_bytes (t : tok) : option bytes :=
   match t with TB b => Some b | TT _ => Some [] | TZ _ => None end.
@@ -26,9 +32,32 @@ Definition parse_ctx (l : list tok) : option span_ctx :=
   | _ => None
   end.
 
+Definition parse_xkind (t : tok) : option xkind :=
+  if is_tag "C" t then Some XComposite else option_map XOne (parse_kind t).
+
+Definition parse_nkeys (z : Z) : option nat := if (0 <=? z) && (z <=? 9) then Some (Z.to_nat z) else None.
+
+Definition parse_rtd (k : tok) (rest : list tok) : option case :=
+  match parse_xkind k, parse_ctx (firstn 5 rest), skipn 5 rest with
+  | Some x, Some cx, sp :: rest' =>
+      if is_tag "NOSPAN" sp then
+        match rest' with
+        | [TZ n] => option_map (CRtD x cx None) (parse_nkeys n)
+        | _ => None
+        end
+      else if is_tag "SPAN" sp then
+        match parse_ctx (firstn 5 rest'), skipn 5 rest' with
+        | Some dx, [TZ n] => option_map (CRtD x cx (Some dx)) (parse_nkeys n)
+        | _, _ => None
+        end
+      else None
+  | _, _, _ => None
+  end.
+
 Definition parse_case (l : list tok) : option case :=
   match l with
   | t :: k :: rest =>
+      if is_tag "RTD" t then parse_rtd k rest else
       if is_tag "RT" t then
         match parse_kind k, parse_ctx rest with
         | Some kd, Some c => Some (CRt kd c)
@@ -77,15 +106,32 @@ Definition parse_ext (l : list tok) : option (option xobs * bool) :=
   | _ => None
   end.
 
+(* an observation: optional "K n" in front of the extraction part *)
+Definition parse_obs (l : list tok) : option (option xobs * bool * Z) :=
+  match l with
+  | TT t :: TZ n :: rest =>
+      if bytes_eqb t (bs "K") then
+        match parse_ext rest with Some (o, same) => Some (o, same, n) | None => None end
+      else match parse_ext l with Some (o, same) => Some (o, same, 0) | None => None end
+  | _ => match parse_ext l with Some (o, same) => Some (o, same, 0) | None => None end
+  end.
+
+Definition model_rtd (x : xkind) (c : span_ctx) (d : option span_ctx) (n : nat) : list tok :=
+  let dest := make_dest d n in
+  let out := roundtrip_into x c dest in
+  tag "K" :: tnat (keys_intact n out) :: print_ext (observed_span dest out) ++ tag ";" :: print_carrier (inject_x x c).
+
 Definition model_case (c : case) : list tok :=
   match c with
+  | CRtD x c d n => model_rtd x c d n
   | CRt k c => print_ext (roundtrip k c) ++ tag ";" :: print_carrier (inject k c)
   | CExtB b3 xt xs xf => print_ext (b3_extract b3 xt xs xf)
   | CExtJ h => print_ext (jaeger_extract h)
   end.
 
-Definition spec_case (c : case) (o : option xobs) (same : bool) : list tok :=
+Definition spec_case (c : case) (o : option xobs) (same : bool) (intact : Z) : list tok :=
   match c with
+  | CRtD x c _ n => spec_roundtrip_into x c n o same intact
   | CRt k c => spec_roundtrip k c o same
   | CExtB b3 xt xs xf => spec_b3_extract b3 xt xs xf o same
   | CExtJ h => spec_jaeger_extract h o same
@@ -99,8 +145,8 @@ Definition run_model (l : list tok) : list tok :=
 
 Definition run_spec (l obs : list tok) : list tok :=
   match parse_case l with
-  | Some c => match parse_ext obs with
-              | Some (o, same) => spec_case c o same
+  | Some c => match parse_obs obs with
+              | Some (o, same, intact) => spec_case c o same intact
               | None => fail "obs:unparsable"
               end
   | None => bad_case
@@ -122,6 +168,16 @@ Definition run_tag (l : list tok) : list tok :=
   | Some (CRt k c) =>
       [tag (String.append "rt_" (String.append (kind_name k)
               (if ctx_valid c then (if is_sampled (c_flags c) then "_valid_sampled" else "_valid_unsampled") else "_invalid")))]
+  | Some (CRtD x c d n) =>
+      [tag (String.append "rtd_" (String.append (xkind_name x) (String.append
+              (if ctx_valid c then "_valid" else "_invalid")
+              (match d with
+               | None => "_nospan"
+               | Some dx => if negb (ctx_valid dx) then "_dst_invalid"
+                            else if bytes_eqb (c_tid dx) (c_tid c) && bytes_eqb (c_sid dx) (c_sid c) && Byte.eqb (c_flags dx) (c_flags c)
+                                 then (if c_remote dx then "_dst_same_remote" else "_dst_same_local")
+                                 else "_dst_other"
+               end))))]
   | Some (CExtB b3 xt xs xf) =>
       [tag (String.append
              (if is_nil b3 then
